@@ -103,11 +103,14 @@ func runC07(c *core.Ctx) {
 
 	c.Clause("C07.order", func() {
 		chk := c.Fn(ordT + ".checkAndSaveEvent")
-		// no error return after AddRoot
+		// no error return after AddRoot; the error is the result of type error, wherever it stands in the
+		// result list (c07ErrResult)
+		ei, _ := c07ErrResult(chk)
+		c.Need(ei >= 0, "checkAndSaveEvent has one result of type error")
 		for _, ar := range chk.CallsTo("abft.Store.AddRoot") {
 			_, found := core.PathQuery{F: chk, From: ar.Pt, FromAfter: true, Target: func(pt core.Point) bool {
 				r, ok := pt.Node().(*ast.ReturnStmt)
-				return ok && len(r.Results) >= 1 && !core.IsNil(chk.Info(), r.Results[0])
+				return ok && c07MayReturnError(chk, r)
 			}}.Find()
 			c.Check(!found, "no rejection after the root was registered", "T2 Dominates", ar.Pos(), "every error return of checkAndSaveEvent precedes AddRoot", "checkAndSaveEvent can reject an event after having registered it as a root")
 		}
@@ -116,14 +119,9 @@ func runC07(c *core.Ctx) {
 		he := proc.CallsTo(ordT + ".handleElection")
 		ok := len(chkCalls) == 1 && len(he) == 1
 		if ok {
-			// first result is the error: err, x := checkAndSaveEvent(e)
-			var ev *types.Var
-			proc.InspectOwn(func(n ast.Node) bool {
-				if as, k := n.(*ast.AssignStmt); k && len(as.Rhs) == 1 && ast.Unparen(as.Rhs[0]) == ast.Expr(chkCalls[0].Call) {
-					ev = varOf(proc, as.Lhs[0])
-				}
-				return true
-			})
+			// the variable that receives the error result (the result of type error, first or last):
+			// err, x := checkAndSaveEvent(e) / x, err := checkAndSaveEvent(e)
+			ev := c07ErrVarOfCall(proc, chkCalls[0].Call, chk)
 			d, _ := proc.MustPassBefore(core.Points(chkCalls), he[0].Pt)
 			g, _ := proc.GuardedBetween(chkCalls[0].Pt, he[0].Pt, varNilFact(proc, ev, true))
 			ok = ev != nil && d && g
